@@ -7,7 +7,7 @@ pub(crate) struct Infohash {
 
 impl Infohash {
   pub(crate) fn from_input(input: &Input) -> Result<Infohash, Error> {
-    let value = Value::from_bencode(&input.data).map_err(|error| Error::MetainfoDecode {
+    let value = Self::decode_value(&input.data).map_err(|error| Error::MetainfoDecode {
       input: input.source.clone(),
       error,
     })?;
@@ -41,6 +41,26 @@ impl Infohash {
         source: MetainfoError::Type,
       }),
     }
+  }
+
+  /// Decode arbitrary bencode with a bounded nesting depth, since `Value` is
+  /// decoded recursively and unbounded nesting would exhaust the stack.
+  pub(crate) fn decode_value(data: &[u8]) -> Result<Value<'static>, bendy::decoding::Error> {
+    const MAX_DEPTH: usize = 2048;
+
+    let mut decoder = bendy::decoding::Decoder::new(data).with_max_depth(MAX_DEPTH);
+
+    let value = match decoder.next_object()? {
+      Some(object) => Value::decode_bencode_object(object)?.into_owned(),
+      None => {
+        return Err(bendy::decoding::Error::unexpected_token(
+          "value",
+          "end of input",
+        ))
+      }
+    };
+
+    Ok(value)
   }
 
   pub(crate) fn from_bencoded_info_dict(info: &[u8]) -> Infohash {
